@@ -87,6 +87,7 @@ type API struct {
 	// the write is about to change.
 	PreWrite []func(verb string, obj client.Object, opts any)
 	tracker   vtracker
+	crashed   bool
 	KeepReads bool // record get/list events too (default: only counted)
 	Reads     int
 	Writes    int
@@ -257,6 +258,10 @@ func (a *API) before(verb, kind string) (caller string, stack []string, err erro
 		runtime.Gosched()
 	}
 	a.mu.Lock()
+	if a.crashed {
+		a.mu.Unlock()
+		return caller, stack, context.Canceled
+	}
 	a.calls++
 	var fire *Fault
 	for _, f := range a.faults {
@@ -276,10 +281,24 @@ func (a *API) before(verb, kind string) (caller string, stack []string, err erro
 		if fire.Kind == "crash" {
 			panic(CrashSentinel{Call: call})
 		}
+		if fire.Kind == "crash-poison" {
+			// the process dies at this call: neither this call nor any later call by Karpenter has any effect until
+			// the driver notices Crashed(), throws the in-memory components away and calls Env.Restart()
+			a.mu.Lock()
+			a.crashed = true
+			a.mu.Unlock()
+			return caller, stack, context.Canceled
+		}
 		return caller, stack, injectedErr(fire.Kind, strings.ToLower(kind))
 	}
 	return caller, stack, nil
 }
+
+// Crashed reports whether a "crash-poison" fault has fired (the emulated process is dead).
+func (a *API) Crashed() bool { a.mu.Lock(); defer a.mu.Unlock(); return a.crashed }
+
+// ClearCrash revives the API after the driver restarted the controllers.
+func (a *API) ClearCrash() { a.mu.Lock(); a.crashed = false; a.mu.Unlock() }
 
 func (a *API) record(ev Event) *Event {
 	a.mu.Lock()
